@@ -17,6 +17,8 @@
 from types import FrameType
 from typing import List
 
+from deep.logging import logging
+
 from deep.api.tracepoint.trigger import Location
 
 from deep.processor.context.action_results import ActionCallback
@@ -71,7 +73,12 @@ class CallbackContext(Location, ActionCallback):
         :return: True, to keep this callback until next match.
         """
         for callback in self.__callbacks:
-            callback.process(ctx, event, frame, arg)
+            try:
+                callback.process(ctx, event, frame, arg)
+            except BaseException:
+                # e.g. the hand-over of a deferred snapshot is refused because delivery was closed meanwhile: that is
+                # the end of this callback only - the span opened by the same event is still closed
+                logging.exception("Cannot complete %s", callback)
 
     @property
     def id(self) -> str:
